@@ -8,7 +8,7 @@ H = os.path.join(vlib.ROOT, 'harness/kernel/mm/pmm')
 
 class C09(flow.Spec):
     prop = 'C09'
-    props_files = ['theories/Props/C09.v', 'theories/Props/C09_examples.v', 'theories/Props/C08.v']
+    props_files = ['theories/Props/C09.v', 'theories/Props/C09_examples.v', 'theories/Props/C09_tso.v', 'theories/Props/C09_tso_examples.v', 'theories/Props/C08.v']
     model_targets = ['theories/Sync/SkelRun.vo']
     pkg = 'mm/pmm'
     harness = [os.path.join(H, 'zz_verif_c09_test.go')]
@@ -21,8 +21,9 @@ class C09(flow.Spec):
             '(word-boundary sizes 1/63/64/65/128/129) so callers collide and hit out-of-memory; per-frame CAS ownership table, '
             'totals at quiescence, sequential drain afterwards, watchdog. The model side reports the skeleton checker verdict on the '
             'lock skeleton regenerated from bitmap_allocator.go. non-trivial = at least 2 callers and 100 iterations')
-    partial = ['interleaving semantics only (see C08); the skeleton abstracts WHICH shared accesses happen, not their values '
-               '(values: C01/C03 sequential correspondence)',
+    partial = ['proved for interleaving semantics and, for lock-disciplined load/store programs in general, for x86-TSO store buffering '
+               '(Props/C09_tso.v: every TSO run is matched by an interleaving run and hence a serial one); that real cores implement x86-TSO is '
+               'assumed; the skeleton abstracts WHICH shared accesses happen, not their values (values: C01/C03 sequential correspondence)',
                'the step from the Go code to a task program satisfying [disciplined] is by the regenerated skeleton + soundness of '
                'the checker on traces; it is not a verified compilation']
     assumptions = ['translator gen/lockskel (go/ast): receiver-rooted selectors = shared state; fields never assigned by AllocFrame/FreeFrame '
